@@ -27,7 +27,8 @@ LEVEL_TEXT = ("Sequences of 1-8 outbound messages over {typed request/notificati
               ' Also messages sent right before the context is left, pretty-printed and newline-terminated strings, directly instantiated envelopes; stdin EOF is judged while the client context is still open.'
               ' Also typed messages whose payload holds a value without a JSON image (arbitrary object, undecodable bytes), under both backends.'
               ' Also typed envelope messages carrying extra members (trace context, vendor extension).'
-              ' Also typed and plain messages nested 200-600 levels, and payloads in which one container object is referenced from several places.')
+              ' Also typed and plain messages nested 200-600 levels, and payloads in which one container object is referenced from several places.'
+              ' Also one client object entered two or three times, each life judged like a first one; results that are a string, a number, a boolean or an array.')
 LEVEL_NOTE = ("Trusted: ScriptedProcess.stdin byte capture (thorough adds a real cat-like child and a real pipe); expected "
               "value of a typed message = its wire dict with None-valued top-level optionals omitted.")
 RULE = ("case = sequence of message specs. Non-trivial: >=2 messages or a payload with a separator character or an "
@@ -88,6 +89,13 @@ def mk(spec: Tuple[str, Any, Any]):
         if shape == "extra_unified":
             return (J.JSONRPCMessage.model_validate(dict({"jsonrpc": "2.0", "id": mid, "method": "tools/call", "params": params}, **extras)),
                     dict({"jsonrpc": "2.0", "id": mid, "method": "tools/call", "params": params}, **extras))
+    if shape.startswith("scalar_"):
+        # a response whose result is not an object: a string (with whatever it holds), a number, a boolean, an array
+        val = {"scalar_str": payload, "scalar_int": 0, "scalar_float": 1.5, "scalar_true": True, "scalar_false": False,
+               "scalar_list": [payload, None, 1]}[shape.rsplit("_", 1)[0] if shape.count("_") > 1 else shape]
+        if shape.endswith("_typed"):
+            return J.create_response(mid, val), {"jsonrpc": "2.0", "id": mid, "result": val}
+        return {"jsonrpc": "2.0", "id": mid, "result": val}, {"jsonrpc": "2.0", "id": mid, "result": val}
     if shape.startswith("aliased_"):
         # one container object referenced from several places of the payload (a constant schema shared by two tools, a row
         # repeated in a table): no cycle, ordinary JSON
@@ -194,6 +202,7 @@ GOOD_SHAPES = ["typed_request", "typed_request_noparams", "typed_notification", 
                "direct_request", "direct_notification", "direct_response", "direct_error", "direct_legacy", "direct_validate",
                "str_pretty", "str_trailing_newline",
                "extra_request", "extra_notification", "extra_response", "extra_error", "extra_unified"]
+SCALAR_SHAPES = [f"scalar_{k}{suffix}" for k in ("str", "int", "float", "true", "false", "list") for suffix in ("", "_typed")]
 ALIASED_SHAPES = ["aliased_typed_request", "aliased_typed_response", "aliased_typed_error", "aliased_direct_notification", "aliased_dict"]
 DEEP_SHAPES = [f"deep{d}_{k}" for d in (200, 260, 400, 600) for k in ("typed_request", "typed_response", "typed_notification", "dict")]
 BAD_SHAPES = ["unser_object", "unser_set", "unser_circular", "unser_bytes", "surrogate_dict", "unser_surrogate_str",
@@ -207,6 +216,9 @@ def gen_cases(ctx):
     for sh in GOOD_SHAPES:
         for p in PAYLOAD_STRINGS:
             yield [(sh, p, 1), ("dict_notification", "sentinel", None)]
+    for sh in SCALAR_SHAPES:
+        for p in (PAYLOAD_STRINGS if "str" in sh or "list" in sh else PAYLOAD_STRINGS[:1]):
+            yield [(sh, p, 4), ("dict_notification", "sentinel", None)]
     for sh in ALIASED_SHAPES:
         for p in PAYLOAD_STRINGS[:4]:
             yield [(sh, p, 3), ("dict_notification", "sentinel", None)]
